@@ -22,8 +22,21 @@ pub fn run(ctx: &mut Ctx) {
         let big = i % 10 == 9;
         let max_work = if big { 2048 } else { *ctx.rng.pick(&[8usize, 16, 32, 64]) };
         let cfg = gen_cfg(&mut ctx.rng, max_work, &["high", "low", "default", "rs"], &ENGINES, if big { &[2, 64, 66] } else { &SMALL_SIZES });
-        let a: Vec<Vec<u8>> = (0..cfg.k).map(|_| ctx.rng.bytes(cfg.sb)).collect();
-        let b: Vec<Vec<u8>> = (0..cfg.k).map(|_| ctx.rng.bytes(cfg.sb)).collect();
+        // structured data (zero blocks, identical shards, constant fills, unit vectors) as well as
+        // random: a data-dependent shortcut in the encoder shows up only on such inputs
+        let a: Vec<Vec<u8>> = gen_originals(&mut ctx.rng, cfg.k, cfg.sb);
+        let b: Vec<Vec<u8>> = if ctx.rng.chance(1, 3) {
+            // sparse delta: one symbol, equal low and high byte
+            let mut v = vec![vec![0u8; cfg.sb]; cfg.k];
+            let (i, l) = (ctx.rng.below(cfg.k), ctx.rng.below(cfg.sb / 2));
+            let (lo, hi) = crate::props::c04::slot_bytes(cfg.sb, l);
+            let x = ctx.rng.range(1, 255) as u8;
+            v[i][lo] = x;
+            v[i][hi] = x;
+            v
+        } else {
+            gen_originals(&mut ctx.rng, cfg.k, cfg.sb)
+        };
         let ab: Vec<Vec<u8>> = a.iter().zip(b.iter()).map(|(x, y)| xor(x, y)).collect();
         let zero: Vec<Vec<u8>> = vec![vec![0u8; cfg.sb]; cfg.k];
         let c = *ctx.rng.pick(&[0usize, 1, 2, 18064, 65535, 0x8000, 12345]) ^ (if ctx.rng.chance(1, 2) { ctx.rng.below(65536) } else { 0 });
